@@ -71,6 +71,8 @@ def parseTest : SExp → Option NodeTest
   | .atom "star" => some .star | .atom "text" => some .text | .atom "node" => some .node
   | .atom "comment" => some .comment | .atom "pi" => some .pi
   | .list [.atom "name", .atom s] => (decodeStr s).map .name
+  | .list [.atom "piname", .atom s] => (decodeStr s).map .piNamed
+  | .list [.atom "nsstar", .atom s] => (decodeStr s).map .nsStar
   | _ => none
 
 partial def parseExpr : SExp → Option Expr
